@@ -66,6 +66,15 @@ def check(repo: Repo, rep: Report) -> None:
         "`id == captured id`, every source notification bumps the id under the not-switched guard, so the timer never wins "
         "after the source terminated or emitted. Timing values are not decided.")
     rep.rule("K1-signature", "typestate signature of each slot equals the confirmed reference", floor=25)
+    # take_with_time / skip_with_time partition the timeline only because each arms its own timer BEFORE it subscribes its source (an
+    # element due exactly at the boundary is then behind the timer in the queue); re-expressing one of them through an operator with
+    # the other order (skip_until_with_time subscribes first) loses exactly the boundary elements
+    for rel_, q_ in ((f"{O}_takewithtime.py", "take_with_time_"), (f"{O}_skipwithtime.py", "skip_with_time_")):
+        if repo.opt_fn(rel_, q_) is not None and repo.opt_fn(rel_, q_ + ".subscribe") is None:
+            rep.ob("K1-signature", repo.fn(rel_, q_), f"{q_} arms its own timer in its own subscribe function", False,
+                   f"{q_} no longer has a subscribe function of its own (it delegates to another operator): the order 'timer first, then the source' "
+                   f"that puts boundary elements on the right side of the gate is not established any more")
+            return
     rep.rule("X1-boundary-agreement", "age == duration is treated the same way on arrival and at completion; take_last / skip_last complementary", floor=2)
     rep.rule("X2-timeout-stale-guard", "fallback switch decided by id equality; source notifications bump the id unless switched", floor=5)
     for key in KEYS:
